@@ -81,6 +81,12 @@ type Service struct {
 	handlers         []FailureHandler
 	runningPipelines *csync.Map[string, *runnablePipeline]
 
+	// publishMu serializes the writers of runningPipelines (the publication in
+	// runPipeline and the compare-and-delete in deleteRunningPipelineIfCurrent)
+	// so the read-compare-delete is atomic with respect to a concurrent
+	// publication. Mirrors pkg/lifecycle.Service.publishMu (#2806).
+	publishMu sync.Mutex
+
 	// terminalErrors holds the terminal error of a pipeline after it has stopped
 	// and been removed from runningPipelines, so WaitPipeline can still report it
 	// to a caller that races the pipeline's own cleanup goroutine. Written before
@@ -1679,8 +1685,14 @@ func (s *Service) runPipeline(rp *runnablePipeline) error {
 		// delete leaves no window where neither is observable).
 		s.terminalErrors.Set(rp.pipeline.ID, err)
 
-		// confirmed that all nodes stopped, we can now remove the pipeline from the running pipelines
-		s.runningPipelines.Delete(rp.pipeline.ID)
+		// confirmed that all nodes stopped, we can now remove the pipeline from
+		// the running pipelines — but only if the entry under this ID is still
+		// THIS run. The terminal status written above (UserStopped/Degraded/...)
+		// already admits a new Start, whose publication can land before this
+		// point; a blind Delete(id) would then erase the NEW, live run's entry
+		// and leave it unreachable via Stop/WaitPipeline. Mirrors
+		// pkg/lifecycle.Service.deleteRunningPipelineIfCurrent (#2806).
+		s.deleteRunningPipelineIfCurrent(rp.pipeline.ID, rp)
 
 		s.notify(rp.pipeline.ID, err)
 		return err
@@ -1724,7 +1736,9 @@ func (s *Service) runPipeline(rp *runnablePipeline) error {
 	//   - that cleanup goroutine blocks on startupDone (closed below), so it
 	//     can never Delete before this Set, which would strand a live run
 	//     outside the map.
+	s.publishMu.Lock()
 	s.runningPipelines.Set(rp.pipeline.ID, rp)
+	s.publishMu.Unlock()
 
 	// It's now safe to make the potentially slow UpdateStatus call and then
 	// release the cleanup goroutine to make its own. close(startupDone)
@@ -1733,6 +1747,18 @@ func (s *Service) runPipeline(rp *runnablePipeline) error {
 	err := s.pipelines.UpdateStatus(ctx, rp.pipeline.ID, pipeline.StatusRunning, "")
 	close(startupDone)
 	return err
+}
+
+// deleteRunningPipelineIfCurrent removes id's entry from runningPipelines only
+// if it still holds exactly rp (compare-and-delete), so a departing run's
+// cleanup can never erase a newer run's published entry.
+func (s *Service) deleteRunningPipelineIfCurrent(id string, rp *runnablePipeline) {
+	s.publishMu.Lock()
+	defer s.publishMu.Unlock()
+
+	if current, ok := s.runningPipelines.Get(id); ok && current == rp {
+		s.runningPipelines.Delete(id)
+	}
 }
 
 // recoverPipeline attempts to recover a pipeline that stopped with a transient
